@@ -291,18 +291,30 @@ def q19f(depth: int, use_f: bool, unrelated: bool) -> str:
 
 # ---------------------------------------------------------------- map: one target per item, deterministic distinct valid names
 def _q19m(n, naming, dup):
-    if not (q.in_range(n, 5) and q.in_range(naming, 3)):
+    if not (q.in_range(n, 5) and q.in_range(naming, 4)):
         return q.SKIP
 
     def make(path):
         return AnonymousTarget(inputs=[path], outputs=[path + ".o"], options={}, group="g", spec="x")
     items = ["f%d" % i for i in range(n)]
-    name = q.pick([None, "nm", lambda idx, t: "it%d" % idx], naming)
+    name = q.pick([None, "nm", lambda idx, t: "it%d" % idx, lambda idx, t: "it%d" % (idx // 2)], naming)
+    if naming == 3:
+        # a naming function that gives two items the same name: the second definition must be rejected
+        if dup:
+            return q.SKIP
+        wf = Workflow(working_dir=WD)
+        try:
+            ts = wf.map(make, items, name=name)
+        except WorkflowError:
+            return "" if n >= 2 else "map over %d items with distinct names was rejected" % n
+        if n >= 2:
+            return "map over %d items accepted the names %s (workflow has %d targets)" % (n, [t.name for t in ts], len(wf.targets))
+        return ""
     runs = []
     for _ in range(2):
         wf = Workflow(working_dir=WD)
         if dup and n >= 1:
-            pre = "make_0" if naming == 0 else ("nm_0" if naming == 1 else "it0")
+            pre = "make_0" if naming == 0 else ("nm_0" if naming == 1 else "it0")   # naming 3 is handled above
             wf.target(pre, inputs=[], outputs=[])
             try:
                 wf.map(make, items, name=name)
@@ -344,5 +356,5 @@ QUERIES = [
     {"name": "Q19c", "fn": q19c, "shards": [{}], "timeout": {"quick": 900, "thorough": 1800},
      "bound": "every pair of invoking directories from %s x creation modes %s x template working_dir in %s" % (CWDS, MODES, [t[0] for t in TEMPLATE_WD])},
     {"name": "Q19f", "fn": q19f, "shards": [{}], "timeout": 400, "bound": "invoking directory = project root or nested 1..3 levels (symbolic depth), or unrelated directory with -f <absolute path>"},
-    {"name": "Q19m", "fn": q19m, "shards": [{}], "timeout": 400, "bound": "0..4 map items (symbolic count), 3 naming modes, with/without a pre-existing target of the first generated name, evaluated twice"},
+    {"name": "Q19m", "fn": q19m, "shards": [{}], "timeout": 400, "bound": "0..4 map items (symbolic count), 3 naming modes + a naming function that repeats a name (must be rejected), with/without a pre-existing target of the first generated name, evaluated twice"},
 ]
